@@ -1127,4 +1127,59 @@ theorem close_race_free (sched : List Nat) :
 
 end close
 
+/-! ### types.recoverSigners: the length check precedes every slice of the signature -/
+
+section sigguard
+open LemoModel.Frame.SigGuard
+
+/-- once Ecrecover has accepted the signature (length 65), no later slice or index can panic;
+    if it refuses, the function has already returned -/
+theorem recoverGuard_no_panic (n : Nat) (recoverable : Bool) : SigGuard.run n recoverable asCoded ≠ .panic := by
+  show SigGuard.run n recoverable [.ecrecover, .sliceR, .sliceS, .indexV] ≠ .panic
+  unfold SigGuard.run exec
+  by_cases h : n ≠ 65
+  · simp [h]
+  · have h65 : n = 65 := by omega
+    subst h65
+    cases recoverable <;> simp [SigGuard.run, exec]
+
+/-- what the guard buys: any statement order that starts with the recovery is total … -/
+theorem recoverGuard_any_order_after_check (n : Nat) (recoverable : Bool) (rest : List Stmt) :
+    SigGuard.run n recoverable (.ecrecover :: rest) ≠ .panic := by
+  unfold SigGuard.run exec
+  by_cases h : n ≠ 65
+  · simp [h]
+  · have h65 : n = 65 := by omega
+    subst h65
+    cases recoverable
+    · simp
+    · simp only [ne_eq, not_true_eq_false, if_false, if_true]
+      induction rest with
+      | nil => simp [SigGuard.run]
+      | cons st tl ih =>
+        unfold SigGuard.run
+        cases st <;> simp [exec] <;> exact ih
+
+/-- … and the reordered variant (value checks first) panics on EVERY signature shorter than 65
+    bytes — exactly the lengths only the p2p path can deliver -/
+theorem recoverGuard_reordered_panics (n : Nat) (recoverable : Bool) (h : n < 65) :
+    SigGuard.run n recoverable reordered = .panic := by
+  unfold reordered SigGuard.run exec
+  by_cases h32 : n < 32
+  · simp [h32]
+  · by_cases h64 : n < 64
+    · simp [h32, h64, SigGuard.run, exec]
+    · simp [h32, h64, SigGuard.run, exec, h]
+
+/-- concrete witness: a 3-byte signature -/
+theorem recoverGuard_reordered_refuted : SigGuard.run 3 true reordered = .panic := by
+  decide
+
+/-- the reordering changes nothing on 65-byte signatures (why it looks like a harmless optimisation) -/
+theorem recoverGuard_reordered_same_on_65 (recoverable : Bool) :
+    SigGuard.run 65 recoverable reordered = SigGuard.run 65 recoverable asCoded := by
+  cases recoverable <;> decide
+
+end sigguard
+
 end LemoProofs.C15
